@@ -75,6 +75,16 @@ def generate(rng, index, tier):
             lk = worlds.op_lookup(rng, rng.pick([30, 60, 100]))
             lk['between'] = {'0': [{'k': 'raw', 'id': ids_[nm], 'q': 2, 'a': list(e_)}]}
             th['ops'].insert(rng.randrange(len(th['ops']) + 1), {'k': 'sys', 'name': nm, 's': s_, 'e': e_, 'in': [lk], 'noend': True})
+    if threads and rng.chance(0.15):
+        # a dyld call that names a string id nobody has announced yet; the announcement of that id comes later (on any thread)
+        th = rng.pick(threads)
+        nm = rng.pick(sorted(worlds.DYLD_STRING_ARG))
+        if nm in worlds.catalog()['ids']:
+            s_, e_ = worlds.domains.draw(rng, nm)
+            sid = 970000 + rng.randrange(1000)
+            s_[worlds.DYLD_STRING_ARG[nm]] = sid
+            th['ops'].insert(rng.randrange(len(th['ops']) + 1), {'k': 'sys', 'name': nm, 's': s_, 'e': e_, 'in': []})
+            rng.pick(threads)['ops'].append({'k': 'gstr', 'id': sid, 'dbgid': 0, 'text': rng.pick(['/usr/lib/libz.1.dylib', 'libfoo.dylib', '_main'])})
     if threads and rng.chance(0.2):
         # a sample whose frames lie below every image known so far, then the same thread announces an image below them; and an
         # exec announcement (data record, then the new name) by a thread of a mapped process
